@@ -173,8 +173,19 @@ pub fn run_case(u: &Universe, case: &Value) -> Vec<Value> {
         }
         // rebuild with TapTree::leaf / combine
         match build_taptree(u, &t).and_then(|tt| Tr::new(tr.internal_key().clone(), Some(tt)).map_err(|e| e.to_string())) {
-            Ok(tr4) => o["combine_leaves"] = leaves_json(&tr4, &names),
-            Err(_) => o["combine_leaves"] = json!([]),
+            Ok(tr4) => {
+                o["combine_leaves"] = leaves_json(&tr4, &names);
+                // the object built through the API, formatted and parsed again (C10)
+                let d4 = Descriptor::Tr(tr4);
+                o["built_print_parse"] = match Descriptor::<Pk>::from_str(&d4.to_string()) {
+                    Ok(d5) => json!(if d5 == d4 { "equal" } else { "differs" }),
+                    Err(e) => json!(format!("err:{}", e)),
+                };
+            }
+            Err(_) => {
+                o["combine_leaves"] = json!([]);
+                o["built_print_parse"] = json!("notbuilt");
+            }
         }
         // commitment (its own stage: a panic here must not hide what parsing produced)
         let stage2 = catch_unwind(AssertUnwindSafe(|| -> Value {
